@@ -479,6 +479,45 @@ Map(st0) == LET len == st0.o.len IN RetA(MapLoop(NewA(st0, len), 0, len))
 Filter(st0) == Flat(st0)   \* identical steps when the predicate is constantly true and no element is an array
 ForEach(st0) == RetL(Collect([st0 EXCEPT !.l = <<>>], 0, st0.o.len, TRUE))
 
+\* callbacks that log their argument: 23.1.3.9 find / findIndex / findLast / findLastIndex read through holes,
+\* 23.1.3.29 some / 23.1.3.6 every / 23.1.3.24 reduce / reduceRight skip holes
+RECURSIVE FindLoop(_, _, _, _)
+FindLoop(st, k, stop, dir) ==
+  IF k = stop \/ ~Ok(st) THEN st
+  ELSE LET g == GetS(st, k) IN FindLoop([g EXCEPT !.l = Append(g.l, g.v)], k + dir, stop, dir)
+FindAll(st0, fromEnd) ==
+  LET len == st0.o.len s == [st0 EXCEPT !.l = <<>>] IN
+  IF fromEnd THEN FindLoop(s, len - 1, -1, -1) ELSE FindLoop(s, 0, len, 1)
+RECURSIVE VisitLoop(_, _, _, _)        \* present elements only
+VisitLoop(st, k, stop, dir) ==
+  IF k = stop \/ ~Ok(st) THEN st
+  ELSE IF HasS(st, k) THEN LET g == GetS(st, k) IN VisitLoop([g EXCEPT !.l = Append(g.l, g.v)], k + dir, stop, dir)
+  ELSE VisitLoop(st, k + dir, stop, dir)
+VisitAll(st0, fromEnd) ==
+  LET len == st0.o.len s == [st0 EXCEPT !.l = <<>>] IN
+  IF fromEnd THEN VisitLoop(s, len - 1, -1, -1) ELSE VisitLoop(s, 0, len, 1)
+RetLV(st, ret) == Fin(st, <<"listv", st.l, ret>>)      \* logged values, then the result
+
+\* 23.1.2.1 Array.from(items): an Array (or Proxy for one) is iterable, a plain array-like is read index by index
+ArrayFrom(st0) ==
+  IF st0.o.arr THEN Spread(st0)
+  ELSE LET len == st0.o.len IN RetA(CopyRange(NewA(st0, len), 0, len, 0))
+
+\* 7.3.23 EnumerableOwnProperties(O, value) = Object.values: keys are snapshotted, each is re-checked, then Get
+RECURSIVE ValuesLoop(_, _)
+ValuesLoop(st, ix) ==
+  IF ix = <<>> \/ ~Ok(st) THEN st
+  ELSE IF HasS(st, Head(ix)) /\ ElGet(st.o, Head(ix)).e
+       THEN LET g == GetS(st, Head(ix)) IN ValuesLoop([g EXCEPT !.l = Append(g.l, g.v)], Tail(ix))
+       ELSE ValuesLoop(st, Tail(ix))
+ObjectValues(st0) ==
+  LET s1 == ValuesLoop([st0 EXCEPT !.l = <<>>], SortedIdx(ElIdx(st0.o)))
+      extras == SelectSeq(s1.o.sk, LAMBDA x : x.d.e)
+  IN Fin(s1, <<"list", s1.l \o [k \in 1..Len(extras) |-> extras[k].d.v]>>)
+OwnNames(o) ==
+  LET ix == SortedIdx(ElIdx(o)) IN
+  [k \in 1..Len(ix) |-> ToString(ix[k])] \o <<"length">> \o [k \in 1..Len(o.sk) |-> o.sk[k].k]
+
 ----------------------------------------------------------------------------
 (* Operations of the scenario alphabet.  An operation is a record with a    *)
 (* kind `k` and kind-specific fields; Apply gives the object afterwards and *)
@@ -533,7 +572,8 @@ TE(r) == [o |-> r.o, ret |-> IF r.b THEN <<"ok">> ELSE <<"throw", "TypeError">>]
 
 Methods == {"push", "pop", "shift", "unshift", "splice", "fill", "copyWithin", "reverse", "sort", "concat",
             "slice", "flat", "indexOf", "lastIndexOf", "includes", "join", "at", "with", "toReversed",
-            "toSorted", "toSpliced", "keys", "values", "entries", "spread", "map", "filter", "forEach"}
+            "toSorted", "toSpliced", "keys", "values", "entries", "spread", "map", "filter", "forEach",
+            "find", "findIndex", "findLast", "findLastIndex", "some", "every", "reduce", "reduceRight", "flatMap", "from"}
 IsMethod(op) == op.k \in Methods
 
 Apply(o, op) ==
@@ -581,6 +621,19 @@ Apply(o, op) ==
     [] k = "map"     -> Map(st)
     [] k = "filter"  -> Filter(st)
     [] k = "forEach" -> ForEach(st)
+    [] k = "find"    -> RetLV(FindAll(st, FALSE), <<"v", "u">>)             \* the predicate logs and returns false
+    [] k = "findIndex" -> RetLV(FindAll(st, FALSE), <<"n", -1>>)
+    [] k = "findLast" -> RetLV(FindAll(st, TRUE), <<"v", "u">>)
+    [] k = "findLastIndex" -> RetLV(FindAll(st, TRUE), <<"n", -1>>)
+    [] k = "some"    -> RetLV(VisitAll(st, FALSE), <<"b", FALSE>>)
+    [] k = "every"   -> RetLV(VisitAll(st, FALSE), <<"b", TRUE>>)           \* the predicate logs and returns true
+    [] k = "reduce"  -> RetLV(VisitAll(st, FALSE), <<"v", "i0">>)           \* (acc, x) => (log(x), acc) with initial value 0
+    [] k = "reduceRight" -> RetLV(VisitAll(st, TRUE), <<"v", "i0">>)
+    [] k = "flatMap" -> Flat(st)                                            \* x => x: same steps as flat() over non-arrays
+    [] k = "from"    -> ArrayFrom(st)                                       \* Array.from(T)
+    [] k = "hasIn"   -> RetB(st, HasS(st, op.i))                            \* i in T
+    [] k = "ovalues" -> ObjectValues(st)                                    \* Object.values(T)
+    [] k = "ownnames" -> [o |-> o, ret |-> <<"list", OwnNames(o)>>]         \* Object.getOwnPropertyNames(T)
 
 \* Array literal [e1, , e3]: CreateDataProperty per element, holes only advance the length
 RECURSIVE LitFill(_, _, _)
